@@ -10,6 +10,7 @@ R19.3  both long-name buffer variants expose the same methods and the fixed buff
 import hashlib
 import re
 
+from analyses import Deps
 from core import vkey
 from extract import ExtractError, extract
 from model import Facts, op_const, op_place, operands_of_rvalue
@@ -232,5 +233,35 @@ def run(ctx, rep):
             rep.violation('R19.3', vkey('R19.3', 'fatfs::dir::LONG_NAME_BUFFER_LEN', 'size', ''), 'src/dir.rs',
                           'the fixed long-name buffer (%s units) cannot hold %s slots of %s units / a %s-unit name: names '
                           'the alloc build handles are not handled by the fixed-buffer build' % (buf, ent, part, mx))
+        # the fixed buffer's length bookkeeping is the identity, as Vec's is: set_len stores its argument unchanged,
+        # len() returns the stored value unchanged (the decoder's `more than 255 units` test relies on it)
+        SL = other.fns.get('fatfs::dir::LfnBuffer::set_len')
+        LN = other.fns.get('fatfs::dir::LfnBuffer::len')
+        probs = []
+        if SL is None or LN is None:
+            probs.append('set_len / len missing in the fixed-buffer build')
+        else:
+            ds = Deps(SL)
+            stores = [s for bi in SL.reachable() for s in SL.blocks[bi]['stmts']
+                      if s['k'] == 'assign' and s['lhs']['p'] and [e.get('n') for e in s['lhs']['p'] if 'f' in e][-1:] == ['len']]
+            if not stores:
+                probs.append('set_len does not store the length')
+            for st_ in stores:
+                toks = set()
+                from model import operands_of_rvalue
+                for o in operands_of_rvalue(st_['rv']):
+                    toks |= ds.of_operand(o)
+                if ('param', 2) not in toks or any(tk[0] in ('op', 'call') for tk in toks) or st_['rv']['k'] != 'use':
+                    probs.append('set_len stores something other than its argument (%s)' % sorted(
+                        tk[1] for tk in toks if tk[0] in ('op', 'call')))
+            dl = Deps(LN)
+            tr = dl.of_local(0)
+            if ('field', 'len') not in tr or any(tk[0] in ('op', 'call') for tk in tr):
+                probs.append('len() does not return the stored length unchanged')
+        rep.oblige('R19.3', 'fixed-buffer length bookkeeping', ok=not probs, nontrivial=True)
+        if probs:
+            rep.violation('R19.3', vkey('R19.3', 'fatfs::dir::LfnBuffer', 'length-identity', ''), 'src/dir.rs',
+                          'the fixed long-name buffer does not keep its length the way the Vec-backed one does: %s (the two '
+                          'builds would decode the same slots to different names)' % '; '.join(probs))
     except ExtractError:
         pass
